@@ -439,6 +439,8 @@ def verdict_script(text):
         return ("error", None)
     if "!!" in s:
         return ("invalid", " <-- bad")
+    if "~~" in s:
+        return ("invalid", "")
     if "??" in s:
         return ("invalid", None)
     if s.endswith("\\"):
@@ -466,7 +468,7 @@ def verdict_brackets(text):
     return ("valid", None) if not stack else ("incomplete", None)
 
 
-C13_FRAG = ["a", "b", " ", "!!", "??", "##", "\\", "ok", "(", ")", "[", "]", "{", "}", "é", "日", "x", "!", "?", "#"]
+C13_FRAG = ["a", "b", " ", "!!", "??", "##", "\\", "ok", "(", ")", "[", "]", "{", "}", "é", "日", "x", "!", "?", "#", "~~", "~"]
 
 
 def gen_c13(rng, mode):
@@ -527,7 +529,7 @@ def eval_c13(res, traces, stream):
             if cmd.tag != "enter" or after == ("end", "hangup"):
                 continue
             kind, msg = vfun(text)
-            kinds[kind + ("+msg" if msg else "")] = kinds.get(kind + ("+msg" if msg else ""), 0) + 1
+            kinds[kind + ("+msg" if msg else "+emptymsg" if msg == "" else "")] = kinds.get(kind + ("+msg" if msg else "+emptymsg" if msg == "" else ""), 0) + 1
             res.nontrivial.add((kind, enc(text), pos))
             if kind == "valid":
                 if after != ("line", text):
@@ -1547,7 +1549,11 @@ def c16_cases(tier, seed):
         panic_at = rng.choice([None, None, 1, 2, 3])
         chunks, keys, ends = [], [], []
         for r in range(nreads):
-            prefix = [rng.choice(["a", "b", "é", "Left", "Home", "x", "(", "C-k", "Up"]) for _ in range(rng.randint(0, 4))]
+            # C-z: the suspend command (with the signals option off the key reaches the keymap): rustyline restores the
+            # terminal, signals itself (ignored here: the child's process group is orphaned) and enters raw mode again
+            # (with the signals option on, C-z is a SIGTSTP from the line discipline and stops the child: not generated)
+            prefix = [rng.choice(["a", "b", "é", "Left", "Home", "x", "(", "C-k", "Up"] + ([] if signals else ["C-z", "C-z"]))
+                      for _ in range(rng.randint(0, 4))]
             end = rng.choice(["enter", "eof", "intr", "invalid", "helper_error", "tab_or_enter"])
             if end == "intr" and signals:
                 end = "enter"
@@ -1656,7 +1662,8 @@ def c16_corr(res, exe, driver, tier, seed, tmp):
             raise InfraError("rawmode: the child never paused after a read (%d results)" % len(rl))
     res.distribution.update({"oracle": stats, "scripts": len(cases)})
     res.rule = ("rawmode: 1-4 reads on one editor; each read is a short key prefix ended by Enter, C-d on an empty line, C-c, an "
-                "undecodable byte, a validator error, or Tab/Enter hitting a scripted helper panic at its k-th call; emacs and vi; "
+                "undecodable byte, a validator error, or Tab/Enter hitting a scripted helper panic at its k-th call; the prefix may contain the "
+                "suspend key C-z (signals option off: rustyline restores the terminal, signals itself, re-enters raw mode); emacs and vi; "
                 "bracketed paste on/off; the signals option on/off; the terminal initially cooked or raw. The child stops itself "
                 "(SIGSTOP) after every read; the driver then reads the terminal settings with tcgetattr, compares them field by field "
                 "(flags, speeds, all control characters) with those in force before that read, checks that the last ESC[?2004h of the "
